@@ -98,6 +98,24 @@ def record(res, tier, tr):
                 # parse-tree
                 job("parse-tree", "json", "bytes", ["parse-tree", "-r", rp, "--print-json"], what=base)
                 job("parse-tree", "yaml", "bytes", ["parse-tree", "-r", rp, "--print-yaml"], what=base)
+        # several rules / data files, some of them reached more than once (a directory and a file in it,
+        # the same file twice, ./x and x): what is evaluated, and in which order, must not vary
+        pairs = clitrace.gen_pairs(seed() * 977 + 3, 5, "full")
+        for k, c in enumerate(pairs):
+            wd.write("multi/rules/m%d.guard" % k, c["rules"] + "\nrule always_fails_%d {\n  nope_%d exists\n}\n" % (k, k))
+            wd.write("multi/data/m%d.json" % k, c["data"])
+            wd.write("multib/rules/m%d.guard" % k, c["rules"] if k != 2 else "rule broken {\n  a == \n}\n")
+        mr, md = os.path.join(wd.path, "multi/rules"), os.path.join(wd.path, "multi/data")
+        mb = os.path.join(wd.path, "multib/rules")
+        for fmt in ("json", "yaml", "sarif", "junit"):
+            kind = "junit" if fmt == "junit" else "bytes"
+            so_ = ["--structured", "-o", fmt, "-S", "none"]
+            job("validate", "multi:dir+file:" + fmt, "bytes", ["validate", "-r", mr, "-r", mr + "/m1.guard", "-d", md + "/m0.json"] + so_, kind=kind, what="multi")
+            job("validate", "multi:file-twice:" + fmt, "bytes", ["validate", "-r", mr + "/m3.guard", "-r", mr + "/m0.guard", "-r", mr + "/m3.guard", "-r", mr + "/m2.guard", "-r", mr + "/m4.guard", "-d", md] + so_, kind=kind, what="multi")
+            job("validate", "multi:data-dir+file:" + fmt, "bytes", ["validate", "-r", mr, "-d", md, "-d", md + "/m2.json"] + so_, kind=kind, what="multi")
+        for label, extra in (("-S all", ["-S", "all"]), ("-S none", ["-S", "none"]), ("-S none -o json", ["-S", "none", "-o", "json"])):
+            job("validate", "multi:dir+file:" + label, "console", ["validate", "-r", mr, "-r", mr + "/m4.guard", "-d", md] + extra, what="multi")
+            job("validate", "multi:broken:" + label, "console", ["validate", "-r", mb, "-r", mb + "/m0.guard", "-d", md + "/m0.json"] + extra, what="multib")
         # rulegen
         tgen = gv(["record-rulegen", "--seed", seed() * 131, "--n", 3 * n, "--hard", 0, "--scratch", wd.path, "--out", os.path.join(wd.path, "tpl.ndjson")])
         # cases an earlier run found (kept under /verif/fixtures/c05): always repeated
